@@ -20,6 +20,7 @@ VARIANTS = [
     V("yield-swapped-pair", M, "        yield match1, match2, affinity", "        yield match2, match1, affinity", "R07.5"),
     V("matrix-float32", M, "cost_matrix = np.zeros(shape=(len(source), len(target)))", "cost_matrix = np.zeros(shape=(len(source), len(target)), dtype=np.float32)", "R07.1"),
     V("matrix-rounded", M, "    matches = _select_matches(cost_matrix)", "    cost_matrix = cost_matrix.round(3)\n    matches = _select_matches(cost_matrix)", "R07"),
+    V("default-time-buffer-changed(G.4)", M, "    target: Sequence[Geometry],\n    time_buffer: float = 0.01,", "    target: Sequence[Geometry],\n    time_buffer: float = 0.05,", "G.4"),
     # neutral
     V("N-sorted-leftovers", M, "    for row in rows:\n        yield row, None\n", "    for row in sorted(rows):\n        yield row, None\n", None),
     V("N-rename", M, "assiged_rows", "assigned_rows", None, occurrence=-1),
